@@ -217,6 +217,22 @@ func (i *MessagingMiddleware) interceptDecryptionKeys(
 	if err != nil {
 		return nil, errors.Wrapf(err, "failed to get current decryption trigger for eon %d", originalMsg.Eon)
 	}
+	// The signatures we attach are those collected for the current trigger. If the keys belong to
+	// different identities (e.g. keys of an earlier trigger that were completed late), the
+	// signatures would not match and peers would reject the message, so we drop it.
+	identityPreimages := []identitypreimage.IdentityPreimage{}
+	for _, key := range originalMsg.Keys {
+		identityPreimages = append(identityPreimages, identitypreimage.IdentityPreimage(key.IdentityPreimage))
+	}
+	identitiesHash := computeIdentitiesHash(identityPreimages)
+	if !bytes.Equal(identitiesHash, trigger.IdentitiesHash) {
+		log.Warn().
+			Uint64("eon", originalMsg.Eon).
+			Hex("expectedIdentitiesHash", trigger.IdentitiesHash).
+			Hex("actualIdentitiesHash", identitiesHash).
+			Msg("intercepted keys message with unexpected identities hash")
+		return nil, nil
+	}
 
 	keyperSet, err := obsKeyperDB.GetKeyperSetByKeyperConfigIndex(ctx, int64(originalMsg.Eon))
 	if err != nil {
